@@ -1523,6 +1523,9 @@ func TestC03(t *testing.T) {
 		run(ops)
 		return
 	}
+	// packets announced inside module-initiated EVM calls (c03_nested_test.go): a world of its own, not part of the op protocol
+	h.nestedSendScenario("fee")
+	h.nestedSendScenario("callback")
 	for _, c := range corpusOps("C03") {
 		run(append([]string{"reset"}, c...))
 	}
